@@ -27,14 +27,17 @@ ASSUMPTIONS = ['parameter passing, push/insert arguments, map/filter/sorted resu
 REAL = ['smartquery.*', 'copy', 'decimal']
 STUB = ['host (supplies and retains objects, mutates them between calls)']
 REACH_PROBES = ('assign_container', 'host_mutate_fired', 'mutation_after_assign', 'disjointness_checked',
-                'kept_object_mutated', 'compound_list_assign', 'setitem_container', 'multi_assign_one_eval')
+                'kept_object_mutated', 'compound_list_assign', 'setitem_container', 'multi_assign_one_eval', 'uncopyable_host_object')
 
 
 def _world(r):
     names = {'l': gen.host_list_spec(r, 1, 4, depth=1), 'd': gen.host_dict_spec(r, 1, 3, depth=1)}
     if r.random() < 0.6:
         names['n'] = [gen.host_list_spec(r, 1, 3, depth=0), gen.host_dict_spec(r, 1, 2, depth=0)]
-    return {'names': names, 'host_fns': ['keep']}
+    w = {'names': names, 'host_fns': ['keep']}
+    if r.random() < 0.25:
+        w['uncopyable'] = True       # the host also supplies a list holding an object copy.deepcopy rejects (a lock)
+    return w
 
 
 NEW_VARS = ['x', 'y', 'z']
@@ -207,6 +210,9 @@ def generate(seed, tier):
     rc, ro = S['config'], S['ops']
     world = _world(rc)
     model = history.model_only(world)
+    if world.get('uncopyable'):
+        import threading
+        model.host['hx'] = [threading.Lock(), [1, 2], {'k': [3]}]
     ops = []
     for _ in range(rc.randint(3, 25)):
         op = _gen_op(ro, model)
@@ -230,6 +236,12 @@ def _roots(W):
 
 def execute(case, ctx):
     W = history.World(case['world'])
+    if case['world'].get('uncopyable'):
+        import threading
+        lock = threading.Lock()
+        W.names['hx'] = [lock, [1, 2], {'k': [3]}]
+        W.model.host['hx'] = [lock, [1, 2], {'k': [3]}]
+        ctx.probe('uncopyable_host_object')
     assigned_container = False
     mutated_after = False
     for step, op in enumerate(case['ops']):
